@@ -1,7 +1,7 @@
 """C02 — returned memory honours size, count and alignment (DESIGN.md #C02)"""
 import subjects
 
-SPEC = dict(modules=["MemVerif.Props.C02", "MemVerif.Props.C02Pool", "MemVerif.Props.C02Coll"], gen_cfgs=("rwdi",),
+SPEC = dict(modules=["MemVerif.Props.C02", "MemVerif.Props.C02Pool", "MemVerif.Props.C02Coll", "MemVerif.Props.C02CollArr"], gen_cfgs=("rwdi",),
             assumptions=["theorems cover the bump-stack family (fixed_memory_stack::allocate = static_allocator, try_allocate of "
                          "memory_stack/iteration_allocator, collection block carving) for every power-of-two alignment and fence size; "
                          "memory_pool over all three lists (Props/C02Pool): every live allocation sits on the node grid of one block / chunk, "
